@@ -11,7 +11,7 @@ import (
 	"os"
 	"path/filepath"
 	"regexp"
-	"runtime"
+	"runtime/metrics"
 	"sort"
 	"strings"
 	"time"
@@ -502,19 +502,15 @@ var Timeout = 20 * time.Second
 // Run calls f under recover, a watchdog and an allocation meter.  inputLen is
 // the size of the attacker-controlled input f works on.
 func Run(inputLen int, f func() error) Outcome {
-	type result struct {
-		o Outcome
-	}
-	done := make(chan result, 1)
-	var before runtime.MemStats
-	runtime.ReadMemStats(&before)
+	done := make(chan Outcome, 1)
+	before := heapAllocs()
 	go func() {
 		var o Outcome
 		defer func() {
 			if r := recover(); r != nil {
 				o = Outcome{Class: "panic", Msg: fmt.Sprint(r)}
 			}
-			done <- result{o}
+			done <- o
 		}()
 		if err := f(); err != nil {
 			o = Outcome{Class: "err", Msg: err.Error()}
@@ -523,15 +519,22 @@ func Run(inputLen int, f func() error) Outcome {
 		}
 	}()
 	select {
-	case r := <-done:
-		var after runtime.MemStats
-		runtime.ReadMemStats(&after)
-		r.o.Alloc = after.TotalAlloc - before.TotalAlloc
-		if r.o.Class != "panic" && r.o.Alloc > AllocLimit(inputLen) {
-			return Outcome{Class: "alloc", Msg: fmt.Sprintf("%d bytes allocated for %d bytes of input (%s)", r.o.Alloc, inputLen, r.o.Class), Alloc: r.o.Alloc}
+	case o := <-done:
+		o.Alloc = heapAllocs() - before
+		if o.Class != "panic" && o.Alloc > AllocLimit(inputLen) {
+			return Outcome{Class: "alloc", Msg: fmt.Sprintf("%d bytes allocated for %d bytes of input (%s)", o.Alloc, inputLen, o.Class), Alloc: o.Alloc}
 		}
-		return r.o
+		return o
 	case <-time.After(Timeout):
 		return Outcome{Class: "hang", Msg: fmt.Sprintf("no result after %v", Timeout)}
 	}
+}
+
+var allocSample = []metrics.Sample{{Name: "/gc/heap/allocs:bytes"}}
+
+// heapAllocs is the cumulative number of bytes allocated on the heap (read
+// without stopping the world; large allocations are accounted immediately).
+func heapAllocs() uint64 {
+	metrics.Read(allocSample)
+	return allocSample[0].Value.Uint64()
 }
